@@ -2,6 +2,7 @@ package rules
 
 import (
 	"fmt"
+	"strings"
 	"go/constant"
 	"go/token"
 
@@ -184,6 +185,15 @@ func runC09(c *core.Ctx) {
 				}
 			}
 			c.Check(ok, "C09/schedule-pairs-identifiers", name, p.Pos(), "CancelPrune(…, "+s.cancelIDn+") then PruneTrie(…, "+s.pruneIDn+") on the reviewed roots", why)
+			// nothing is scheduled when the state root did not change: the "old" hashes of an unchanged root were recorded by the NEXT block's commit
+			unchangedSkipped := false
+			for _, f := range core.FactsAt(p.Block()) {
+				if f.Op == "T" && strings.HasPrefix(f.A, "!bytes.Equal(") {
+					unchangedSkipped = true
+				}
+			}
+			c.Check(unchangedSkipped, "C09/schedule-pairs-identifiers", name+"/only-if-root-changed", p.Pos(), "pruning is scheduled only when the two root hashes differ",
+				"pruning is scheduled even when the state root did not change: the hashes recorded under that root belong to the following block, and a rollback of that block leaves the current state unreadable")
 		}
 	}
 	if fn := anchorM(c, "process/block", "baseProcessor", "getRootHashes"); fn != nil {
